@@ -156,6 +156,36 @@ fn number_rem_mixed_is_float(s) {
     check!(s, "F64 % I64 is a float", (F64(f) % I64(i)).is_f64() && (&F64(f) % &I64(i)).is_f64());
 }
 
+#[kani::unwind(66)]
+fn number_pow_int_representation(s) {
+    // full domain: an integer raised to a non-negative integer stays an integer (C01 "integer
+    // arithmetic that wraps"), raised to a negative one it is a float; never a panic (C06)
+    let (a, b) = (s.i64(), s.i64());
+    let r = I64(a).pow(I64(b));
+    check!(s, "I64 ^ I64 is an integer exactly when the exponent is not negative", r.is_i64() == (b >= 0));
+}
+
+#[kani::unwind(66)]
+fn number_pow_int_small(s) {
+    // BOUNDED: base from the small grid, exponent 0..=3: the wrapping product
+    let a = small_int(s);
+    let e = s.u8() & 3;
+    let expect = match e { 0 => 1, 1 => a, 2 => a.wrapping_mul(a), _ => a.wrapping_mul(a).wrapping_mul(a) };
+    check!(s, "I64 ^ e == the wrapping product of e factors (e <= 3)", same(I64(a).pow(I64(e as i64)), I64(expect)));
+}
+
+#[kani::unwind(66)]
+fn number_pow_two_wraps_to_zero(s) {
+    // full domain in the exponent: 2 ^ b wraps to 0 for EVERY b >= 64 (C01 "integer arithmetic that
+    // wraps"), also for exponents that do not fit 32 bits
+    let b = s.i64();
+    if b >= 64 {
+        check!(s, "2 ^ b == 0 for every b >= 64", same(I64(2).pow(I64(b)), I64(0)));
+    } else if b >= 0 {
+        check!(s, "2 ^ b == 1 << b for 0 <= b < 64", same(I64(2).pow(I64(b)), I64(1i64.wrapping_shl(b as u32))));
+    }
+}
+
 fn number_neg(s) {
     let (i, f) = (s.i64(), s.f64());
     check!(s, "-I64 wraps", same(-I64(i), I64(i.wrapping_neg())) && same(-&I64(i), I64(i.wrapping_neg())));
